@@ -505,7 +505,34 @@ def r16_8(ctx):
         ctx.met('R16.8', do.qual, 'diagonal kept as a vector', do.node)
 
 
+def r16_9(ctx):
+    """CSRRowSubset applies the rows in the order and multiplicity of the row list.  Rows are applied one by one; if they are
+    grouped into runs handled by one kernel call, a run ends wherever the next row is not the previous row + 1
+    (np.diff(rows) != 1).  The test `> 1` lets a repeated or a decreasing row continue the run: rows r, r+1, ... of the matrix
+    are applied instead of the listed ones."""
+    f = ctx.prog.maybe_func('pyiga.utils.CSRRowSubset._matvec')
+    if f is None:
+        ctx.undecided('R16.9', 'pyiga.utils.CSRRowSubset._matvec', 'definition', None, 'not found')
+        return
+    diffs = [c for c in ast.walk(f.node) if isinstance(c, ast.Compare) and any(isinstance(x, ast.Call) and (call_name(x) or '').endswith('diff') for x in ast.walk(c.left))]
+    if not diffs:
+        per_row = any(isinstance(l, ast.For) and 'self.rows' in src(l.iter) for l in ast.walk(f.node))
+        ctx.decide('R16.9', f.qual, 'rows applied one by one' if per_row else 'application of the rows', True if per_row else None, f.node)
+        return
+    for c in diffs:
+        op, rhs = c.ops[0], c.comparators[0]
+        one = isinstance(rhs, ast.Constant) and rhs.value == 1
+        ok = one and isinstance(op, ast.NotEq)
+        bad = (one and isinstance(op, (ast.Gt, ast.GtE))) or (isinstance(rhs, ast.Constant) and rhs.value == 2 and isinstance(op, ast.GtE))
+        ctx.decide('R16.9', f.qual, src(c), True if ok else (False if bad else None), c,
+                   'a run ends at every step other than +1' if ok else
+                   'a run of consecutive rows is only ended by a step LARGER than one: for a row list that is not strictly increasing (repeated, '
+                   'descending, shuffled) rows r, r+1, ... are applied instead of the listed rows (errors 0.4 .. 1.3), and a bogus run can read '
+                   'beyond indptr', definite=True)
+
+
 def run(ctx):
+    r16_9(ctx)
     r16_8(ctx)
     r16_7(ctx)
     r16_1(ctx)
